@@ -817,7 +817,7 @@ struct RevokeCase {
     /// per attempt: true = right passcode
     attempts: Vec<bool>,
     /// per attempt: the confirmation cA in Pake3 is cut / extended to that many bytes on the
-    /// wire (32 = untouched); a malformed proof is a failed proof too. Only an initiator with the
+    /// wire (32 = untouched, 255 = same length but corrupted content); a malformed or wrong proof is a failed proof. Only an initiator with the
     /// right passcode gets as far as sending Pake3, so this matters for those attempts
     #[serde(default)]
     ca_len: Vec<u8>,
@@ -833,8 +833,8 @@ fn revoke_strategy() -> impl Strategy<Value = RevokeCase> {
         ],
         prop_oneof![
             2 => Just(vec![]),
-            1 => prop::collection::vec(prop_oneof![2 => Just(32u8), 1 => Just(31u8), 1 => 0u8..32, 1 => Just(33u8)], 26),
-            1 => prop::sample::select(vec![0u8, 1, 16, 31, 33]).prop_map(|l| vec![l; 26]),
+            1 => prop::collection::vec(prop_oneof![2 => Just(32u8), 1 => Just(31u8), 1 => 0u8..32, 1 => Just(33u8), 2 => Just(255u8)], 26),
+            1 => prop::sample::select(vec![0u8, 1, 16, 31, 33, 255, 255]).prop_map(|l| vec![l; 26]),
         ],
         any::<u32>(),
     )
@@ -866,9 +866,15 @@ fn check_revoke(case: &RevokeCase) -> Case {
                     // Pake3 = 15 30 01 <len> <cA> 18
                     if let Some((vo, vl)) = mutate::tlv_string_values(&w.payload).first().copied() {
                         if vl == 32 && vo >= 1 {
+                            // 255 = keep the length, corrupt the content (a wrong confirmation
+                            // of the right size)
+                            let (len, corrupt) = if len == 255 { (32u8, true) } else { (len, false) };
                             let mut p = w.payload[..vo - 1].to_vec();
                             p.push(len);
                             let mut ca = w.payload[vo..vo + vl].to_vec();
+                            if corrupt {
+                                ca.iter_mut().for_each(|b| *b ^= 0xa5);
+                            }
                             ca.resize(len as usize, 0x5a);
                             p.extend_from_slice(&ca);
                             p.extend_from_slice(&w.payload[vo + vl..]);
